@@ -361,14 +361,15 @@ def check_c08(tier, seed):
                 "invalid defaults whose generated unit tests must fail exactly when contradictory (cargo test). A case is one declaration; non-trivial = its observed verdict was "
                 "compared with a MUST_ACCEPT or MUST_REJECT expectation.")
     # (schemars08 alone: serde / arbitrary items must still be refused)
-    groups = [("all", cratebuild.ALL_FEATURES, FULL_DEPS), ("f0", ["std"], ""), ("schemars08", ["std", "schemars08"], FULL_DEPS)]
-    if tier == "thorough":
-        # single-feature sets: every feature-gated item must be refused exactly when its own feature is off
-        for f in ("serde", "arbitrary", "regex", "new_unchecked"):
-            groups.append((f, ["std", f], FULL_DEPS))
-    for gname, feats, deps in groups:
-        cases = corpus_verdict.build(tier, seed, feats, gname)
-        vc = verdict.VerdictCrate("c08-%s-%s" % (gname, tier), feats, extra_deps=deps)
+    # (schemars08 alone: serde / arbitrary items must still be refused; single-feature sets: every feature-gated item must be
+    # refused exactly when its own feature is off; nodefault: the crate's `std` feature off, everything else on)
+    groups = [("all", cratebuild.ALL_FEATURES, FULL_DEPS, True), ("f0", ["std"], "", True), ("schemars08", ["std", "schemars08"], FULL_DEPS, True)]
+    for f in ("serde", "arbitrary", "regex", "new_unchecked"):
+        groups.append((f, ["std", f], FULL_DEPS, True))
+    groups.append(("nodefault", ["serde", "arbitrary", "regex", "new_unchecked"], FULL_DEPS, False))
+    for gname, feats, deps, dflt in groups:
+        cases = corpus_verdict.build(tier, seed, feats + (["std"] if not dflt else []), gname)
+        vc = verdict.VerdictCrate("c08-%s-%s" % (gname, tier), feats, extra_deps=deps, default_features=dflt)
         try:
             out, info = verdict.run_verdicts(vc, cases, log=log)
         except Inconclusive as e:
@@ -403,6 +404,38 @@ def check_c08(tier, seed):
         import shutil
         shutil.copy(os.path.join(REPO, "Cargo.lock"), os.path.join(gdir, "Cargo.lock"))
     env = dict(ENV); env["CARGO_TARGET_DIR"] = os.path.join(WORK, "target")
+    # the planted tests must at least compile in the user's test build: attribute test-build errors to cases by span
+    gt_alive = list(gt)
+    for _round in range(4):
+        lines_of = []
+        line = 2
+        for t in gt_alive:
+            nl = t[0].count("\n") + 1
+            lines_of.append((line, line + nl - 1, t))
+            line += nl
+        write_if_changed(os.path.join(gdir, "src", "lib.rs"), "#![allow(dead_code, unused_imports)]\n" + "\n".join(t[0] for t in gt_alive))
+        rc_b, diags, err_b, _ = cratebuild.cargo_json(["cargo", "test", "--offline", "--lib", "--no-run", "--message-format=json", "-q"], gdir, os.path.join(WORK, "target"))
+        if rc_b == 0:
+            break
+        bad_cases = []
+        for dg in diags:
+            for sp in dg["spans"]:
+                if sp["file_name"].endswith("src/lib.rs"):
+                    for (a, bb, t) in lines_of:
+                        if a <= sp["line_start"] <= bb and t not in bad_cases:
+                            bad_cases.append((t, dg))
+                    break
+        if not bad_cases:
+            res.inconclusive.append("generated-tests crate does not build and no case can be blamed: %s" % err_b[-500:])
+            break
+        for (t, dg) in bad_cases:
+            if t in gt_alive:
+                gt_alive.remove(t)
+                v = {"decl": t[1], "signature": "generated-test-does-not-compile:" + t[2], "input": t[0], "observed": "test build fails: %s" % dg["message"][:200],
+                     "expected": "a well-formed declaration keeps the user's `cargo test` build working", "detail": ""}
+                v["replay"] = write_witness(res, v, module_text=t[0], decl_src=t[0], kind="generated-test")
+                res.violations.append(v)
+    gt = gt_alive
     rc, out_t, err_t, dt = run(["cargo", "test", "--offline", "--lib", "--", "--test-threads", "8"], cwd=gdir, env=env, timeout=1200)
     results = {}
     for line in out_t.splitlines():
@@ -414,7 +447,7 @@ def check_c08(tier, seed):
         res.inconclusive.append("generated-tests crate produced no test results: rc=%d %s" % (rc, err_t[-600:]))
     n_fail_expected = 0
     for i, (text, tname, test, must_fail) in enumerate(gt):
-        full = "g%03d::__nutype_%s__::tests::%s" % (i + 1, tname, test)
+        full = "%s::__nutype_%s__::tests::%s" % (text.split()[2], tname, test)
         res.evaluations += 1
         if full not in results:
             res.violations.append({"decl": tname, "signature": "generated-test-missing:" + test, "input": text, "observed": "no such test in the user's crate",
